@@ -264,7 +264,7 @@ class Ctx:
         return r
 
     # ------------------------------------------------------------- harness
-    def harness(self, argv, timeout=900, allow_rc=(0,), env=None, stdin=None):
+    def harness(self, argv, timeout=900, allow_rc=(0,), env=None, stdin=None, keep=None):
         """Run a harness command speaking the `VH {json}` protocol.
         Violations it reports are registered; returns dict(summary, samples, violations, rc)."""
         p = self.run(argv, timeout=timeout, env=env, stdin=stdin)
@@ -278,7 +278,14 @@ class Ctx:
                 raise Infra("bad harness line: %r" % line[:300])
             k = o.get("kind")
             if k == "summary":
-                res["summary"].update({a: b for a, b in o.items() if a != "kind"})
+                for a, b in o.items():
+                    if a in ("kind", "partial"):
+                        continue
+                    if o.get("partial") and isinstance(b, (int, float)) and not isinstance(b, bool) \
+                            and isinstance(res["summary"].get(a), (int, float)):
+                        res["summary"][a] += b      # partial summaries of pool workers add up
+                    else:
+                        res["summary"][a] = b
             elif k == "sample":
                 res["samples"].append(o.get("case"))
             elif k == "violation":
@@ -289,7 +296,11 @@ class Ctx:
             raise Infra("harness %s timed out after %ss" % (os.path.basename(argv[0]), timeout))
         if p.returncode not in allow_rc:
             raise Infra("harness %s exited %d: %s" % (os.path.basename(argv[0]), p.returncode, p.stderr[-3000:]))
+        res["other"] = []
         for v in res["violations"]:
+            if keep is not None and not keep(v):
+                res["other"].append(v)      # belongs to another property's check
+                continue
             self.violation(v.get("sig", "?"), v.get("desc", ""), v.get("replay"))
         return res
 
